@@ -53,7 +53,7 @@ func runRefProfile(c *core.Ctx, pf *refProfile) {
 		// the call gets its own copy of the input, which is overwritten as soon as the call has
 		// returned: results must not refer to the caller's buffer
 		in := append([]byte{}, cs.Laid.Src...)
-		res := Interpret(in)
+		res := InterpretReused(in)
 		for k := range in {
 			in[k] = '#'
 		}
